@@ -184,23 +184,23 @@ def play(kind, validators, init, steps):
 
 # ---------------------------------------------------------------------------
 def family(tier):
-    # (thorough keeps the same change sets and adds a step: 70 choices per step, 343 000 histories per validator)
+    # (thorough keeps the same change sets and adds a step: 70 choices per step, 343 000 histories for the ETag host;
+    #  larger sets did not finish in an hour on a loaded machine)
     gh_s = ['keep', 'success', 'failure', 'absent']
     gh_r = ['keep', 'none', 'success', 'failure']
     bb_s = ['keep', 'SUCCESSFUL', 'FAILED', 'INPROGRESS', 'absent']
     fams = [
         # every change between polls, short
         dict(key='github full', kind='github', n=2 if tier == 'quick' else 3,
-             validators=['etag', 'date', 'none'] if tier == 'quick' else ['etag', 'date'],
+             validators=['etag', 'date', 'none'] if tier == 'quick' else ['etag'],
              inits=[('absent', 'none')], upd_s=gh_s, upd_r=gh_r, events=['pending', 'success', 'failure']),
         # longer, the host only changes through events; every initial report
         dict(key='github polls', kind='github', n=3 if tier == 'quick' else 4, validators=['etag', 'date'],
-             inits=[('success', 'none'), ('failure', 'none'), ('absent', 'success')] +
-             ([('pending', 'running'), ('error', 'failure')] if tier == 'thorough' else []), upd_s=['keep'], upd_r=['keep'],
+             inits=[('success', 'none'), ('failure', 'none'), ('absent', 'success')], upd_s=['keep'], upd_r=['keep'],
              events=['failure'] if tier == 'quick' else ['success', 'failure']),
         dict(key='bitbucket', kind='bitbucket', n=2 if tier == 'quick' else 3, validators=['none'],
              inits=[('absent', 'absent'), ('FAILED', 'SUCCESSFUL')], upd_s=bb_s,
-             upd_r=['keep'] if tier == 'quick' else ['keep', 'SUCCESSFUL'],
+             upd_r=['keep'],
              events=['INPROGRESS', 'SUCCESSFUL', 'FAILED']),
     ]
     return fams
